@@ -1,7 +1,9 @@
 /-
 Line-protocol driver for the legacy-listener model (property C16).
 
-  case   :=  ('E'|'I'|'D'|'K')* arity link* final '|' op (';' op)*
+  case   :=  ('E'|'I'|'D'|'K'|'F'|'Z'|'N')* arity link* final '|' op (';' op)*
+             ('F' / 'Z': falsy node classes, 'N': link trait names containing `_items` — implementation
+              side only, truth values and names are opaque to the model)
              ('D' / 'K': the registration is made with deferred=True — by the @on_trait_change
               decorator when the history starts with `rg`, else / later by the keyword)
              ('E': the implementation side uses a node class with value-based `__eq__` and
@@ -47,11 +49,11 @@ def parseLink (s : String) : Option Link :=
   | _ => none
 
 def parseEq (s : String) : Bool :=
-  ((words s).takeWhile (fun w => w = "E" || w = "I" || w = "D" || w = "K")).contains "E"
+  ((words s).takeWhile (fun w => ["E", "I", "D", "K", "F", "Z", "N"].contains w)).contains "E"
 
 def parseName (s : String) : Option Name :=
   let ws := words s
-  let flags := ws.takeWhile (fun w => w = "E" || w = "I" || w = "D" || w = "K")
+  let flags := ws.takeWhile (fun w => ["E", "I", "D", "K", "F", "Z", "N"].contains w)
   let deferred := flags.contains "D" || flags.contains "K"
   match ws.drop flags.length with
   | ar :: rest =>
